@@ -35,7 +35,7 @@ package neuronjson
 //@ spec func idsNonDecr(s []uint64) bool = forall a int, b int :: {s[a]} {s[b]} 0 <= a && a < b && b < len(s) ==> s[a] <= s[b]
 
 //@ func Data.loadMemDB
-//@   prop C16
+//@   prop C16 C03
 //@   requires d != nil && mdb != nil
 //@   safety_off
 //@   calls_havoc
